@@ -22,7 +22,7 @@ func init() { register(c14{}) }
 func (c14) ID() string { return "C14" }
 func (c14) Rule() string {
 	return "for every image: (1) the independent T.87 decoder (internal/ref/t87.go) decodes the stream of jpegls/lossless.Encode to the source, and the stream of nearlossless.Encode(NEAR) to exactly what nearlossless.Decode returns; (2) lossless.Encode(x) and nearlossless.Encode(x,0) are byte-identical; (3) each package's decoder decodes the other package's stream to the same result; (4) the T.87 Annex H.3 example image encodes to the published bit stream. " +
-		"cases: P 2..16 x components {1 (ILV 0), 3 (ILV 2)} x NEAR {0 and a spread of values up to min(255,MAXVAL/2)} x content classes x sizes; complete enumeration of small images at P=2,3 for NEAR 0 and 1. " +
+		"cases: P 2..16 x components {1 (ILV 0), 3 (ILV 2)} x NEAR {0 and a spread of values up to min(255,MAXVAL/2)} x content classes x sizes; complete enumeration of small images at P=2,3 for NEAR 0 and 1; (runlimit) flat run, one outlier sweeping the whole range in both polarities (run-interruption code around its escape limit). " +
 		"non-trivial: all four codec runs happened and were compared; distinct = distinct descriptor"
 }
 func (c14) Assumptions() []string {
@@ -114,6 +114,13 @@ func (c14) Build(tier string, seed uint64) []any {
 			cs = append(cs, &imgCase{Gen: "long", W: 2000 + r.Intn(3000), H: 2, C: c, P: p, Sel: gen.Pick(r, 0, 0, 1), Class: gen.Pick(r, "const", "runs"), CSeed: r.U64()})
 			cs = append(cs, &imgCase{Gen: "reset", W: 90 + r.Intn(40), H: 70 + r.Intn(40), C: c, P: p, Sel: gen.Pick(r, 0, 0, 2), Class: gen.Pick(r, "noise", "smooth", "lowent"), CSeed: r.U64()})
 		}
+	}
+	// (runlimit) run interruption around the Golomb escape limit (see runLimitEnumerate)
+	if th {
+		add(runLimitBatches([]int{4, 6, 8, 9, 10, 11, 12, 14, 16}, []int{1, 3}, []int{0, 1, 3}, 40, []int{1, 2, 3}))
+	} else {
+		add(runLimitBatches([]int{8, 10, 12, 16}, []int{1}, []int{0, 2}, 16, []int{1, 2}))
+		add(runLimitBatches([]int{8, 12}, []int{3}, []int{0, 1}, 8, []int{1}))
 	}
 	for j, g := range areaSizes(tier == "thorough", seed) {
 		for i, pn := range [][2]int{{8, 0}, {12, 0}, {16, 0}, {8, 2}} {
@@ -253,6 +260,21 @@ func (c14) Exec(d any) mon.Result {
 			cl, msg := c14One(s, c.W, c.H, c.C, c.P, c.Sel, nil)
 			if cl != "" {
 				fc, fm = cl, fmt.Sprintf("samples=%v: %s", s, msg)
+				return false
+			}
+			return true
+		})
+		if fc != "" {
+			res.V, res.Class, res.Msg = mon.Violated, fc, fm
+		}
+		return res
+	}
+	if c.Gen == "runlimit" {
+		var fc, fm string
+		res.Sub = c.runLimitEnumerate(func(s []int) bool {
+			cl, msg := c14One(s, c.W, c.H, c.C, c.P, c.Sel, nil)
+			if cl != "" {
+				fc, fm = cl, fmt.Sprintf("row of %d background samples then outlier %d (background %d): %s", c.Aux, s[((c.H-1)*c.W+c.Aux)*c.C], s[0], msg)
 				return false
 			}
 			return true
